@@ -166,6 +166,10 @@ namespace
         sink_schema.input_schema = in_schema;
         sink_schema.node_kind    = NodeKind::Sink;
         std::atomic<long long> delivered{0};
+        std::vector<std::atomic<long long>> last_delivered((std::size_t)nsrc);
+        std::vector<std::atomic<long long>> last_accepted((std::size_t)std::max(1, producers));
+        for (auto &a : last_delivered) a.store(-1);
+        for (auto &a : last_accepted) a.store(-1);
         auto make_eval = [&](int src) {
           return [&, src](const NodeView &view, DateTime evaluation_time) {
             auto root   = view.input(evaluation_time);
@@ -186,6 +190,7 @@ namespace
             {
                 ids += " " + std::to_string((long long)input.value().checked_as<Int>());
                 n = 1;
+                last_delivered[(std::size_t)src].store((long long)input.value().checked_as<Int>());
             }
             delivered.fetch_add(n);
             long long pending = -1;
@@ -248,7 +253,7 @@ namespace
                     const long long c  = tr.now();
                     bool ok = blocking ? s.send_blocking(Int{id}) : s.try_send(Int{id});
                     const long long r = tr.now();
-                    if (ok) accepted_total.fetch_add(1);
+                    if (ok) { accepted_total.fetch_add(1); last_accepted[(std::size_t)p].store(id); }
                     tr.line("P " + std::to_string(tid()) + (blocking ? " block " : " try ") + std::to_string(id) + " " + std::to_string(c) + " " +
                             std::to_string(r) + " " + (ok ? "1" : "0"));
                     if (run_returned.load()) break;
@@ -282,7 +287,24 @@ namespace
                 const auto deadline = sclock::now() + std::chrono::milliseconds(2500);
                 while (policy != "conflate" && delivered.load() < accepted_total.load() && sclock::now() < deadline && !run_returned.load())
                     std::this_thread::sleep_for(std::chrono::microseconds(100));
-                if (policy == "conflate") std::this_thread::sleep_for(std::chrono::milliseconds(5));
+                // conflating source: the latest accepted value of some producer of each source must come out (same bound)
+                auto conflated_out = [&] {
+                    for (int src = 0; src < nsrc; ++src)
+                    {
+                        bool any = false, hit = false;
+                        for (int p = src; p < producers; p += nsrc)
+                        {
+                            const long long la = last_accepted[(std::size_t)p].load();
+                            if (la < 0) continue;
+                            any = true;
+                            if (la == last_delivered[(std::size_t)src].load()) hit = true;
+                        }
+                        if (any && !hit) return false;
+                    }
+                    return true;
+                };
+                while (policy == "conflate" && !conflated_out() && sclock::now() < deadline && !run_returned.load())
+                    std::this_thread::sleep_for(std::chrono::microseconds(100));
             }
             const long long c = tr.now();
             view.request_stop();
